@@ -82,6 +82,33 @@ fn main() {
         println!("{{\"outcome\":\"{}\",\"message\":\"{}\"}}", outcome, esc(&msg));
         return;
     }
+    if args.len() == 6 && args[1] == "--api" {
+        // one library entry point with an explicit format: --api <value|scss|path|transform> <expanded|compressed> <precision> <arg>
+        use rsass::input::{FsContext, SourceFile, SourceName};
+        let style = if args[3] == "compressed" { rsass::output::Style::Compressed } else { rsass::output::Style::Expanded };
+        let format = rsass::output::Format { style, precision: args[4].parse().unwrap_or(10) };
+        let entry = args[2].clone();
+        let arg = args[5].clone();
+        panic::set_hook(Box::new(|_| {}));
+        let res = panic::catch_unwind(move || {
+            let r = match entry.as_str() {
+                "value" => rsass::compile_value(arg.as_bytes(), format),
+                "scss" => rsass::compile_scss(arg.as_bytes(), format),
+                "path" => rsass::compile_scss_path(std::path::Path::new(&arg), format),
+                _ => FsContext::for_cwd()
+                    .with_format(format)
+                    .transform(SourceFile::scss_bytes(arg.as_bytes(), SourceName::root("-"))),
+            };
+            r.map(|v| String::from_utf8_lossy(&v).into_owned()).map_err(|e| format!("{e:?}"))
+        });
+        let (outcome, msg) = match res {
+            Ok(Ok(css)) => ("ok", css),
+            Ok(Err(e)) => ("error", e),
+            Err(_) => ("panic", String::new()),
+        };
+        println!("{{\"outcome\":\"{}\",\"message\":\"{}\"}}", outcome, esc(&msg));
+        return;
+    }
     if args.len() == 5 && args[1] == "--scss-fail-lookup" {
         // compile <dir>/<entry> through a loader over <dir> whose k-th find_file call fails
         use rsass::input::{Context, LoadError, Loader, SourceFile, SourceName};
